@@ -970,7 +970,23 @@ func flowsOnlyTo(v ssa.Value, sinks []*ssa.Function, root *ssa.Function, seen ma
 			}
 		case ssa.CallInstruction:
 			if !isSink(x) {
-				return "used by " + describeCallee(x)
+				// handed on to a helper of the module: follow the parameter it arrives in
+				g := calleeOf(x)
+				followed := false
+				if g != nil && g.Pkg != nil && strings.HasPrefix(g.Pkg.Pkg.Path(), modPath) && len(origin(g).Blocks) > 0 && x.Common().Value != v {
+					og := origin(g)
+					for i, a := range x.Common().Args {
+						if a == v && i < len(og.Params) {
+							followed = true
+							if bad := flowsOnlyTo(og.Params[i], sinks, og, seen); bad != "" {
+								return bad
+							}
+						}
+					}
+				}
+				if !followed {
+					return "used by " + describeCallee(x)
+				}
 			}
 		case *ssa.Return:
 			// handed back to the callers of a helper (a function that selects / builds the value): follow every call site
